@@ -133,7 +133,8 @@ impl Property for C12 {
         let general = (any::<bool>(), small_base, exp_small).prop_map(move |(neg, b, e)| {
             let bits = Nat::from_u64_digits(&b).bits().max(1);
             let cap = (gen_cap / bits).max(2);
-            let e = if bits <= 1 { e } else { e.min(cap) };
+            // fold large exponents into the admissible range without collapsing them onto the cap
+            let e = if bits <= 1 || e <= cap { e } else { e % (cap + 1) };
             Case::new("pow", vec![Arg::Z(neg, b), Arg::N(gen::trim(vec![e]))])
         });
         // trivial bases with enormous exponents (incl. above u64 / u128)
